@@ -54,7 +54,9 @@ def draw_operator(st, tier, like=None, prefer_k2=False, structured_k3=False):
     n = d0 * d1
     rng = st.nprng()
     cplx = bool(st.draw(2))
-    kind = st.weighted([("density", 4), ("psd", 2), ("projection", 3), ("rank_one", 2), ("indefinite", 2), ("non_hermitian", 1), ("low_rank_psd", 2), ("ppt_edge", 1), ("hermitian_pq", 1), ("diagonal", 2), ("block_diagonal", 2)])
+    kind = st.weighted([("density", 4), ("psd", 2), ("projection", 3), ("rank_one", 2), ("indefinite", 2), ("non_hermitian", 1), ("low_rank_psd", 2), ("ppt_edge", 1), ("hermitian_pq", 1), ("diagonal", 2), ("block_diagonal", 2), ("entangled_plus_identity", 1)])
+    if like is not None and like.get("_want_low_ratio"):
+        kind = "entangled_plus_identity"
     if kind == "ppt_edge" and like is not None:
         kind = "density"
     if kind == "ppt_edge":
@@ -111,6 +113,16 @@ def draw_operator(st, tier, like=None, prefer_k2=False, structured_k3=False):
         if st.draw(2):
             v = u
         x = u @ v.conj().T
+    elif kind == "entangled_plus_identity":
+        # |Phi><Phi| + c I with Phi maximally entangled (up to local unitaries): exactly known S(k) norm
+        # k / min(d) + c, a small fraction of the operator norm 1 + c
+        m = min(d0, d1)
+        phi = np.zeros((n, 1), dtype=complex if cplx else float)
+        for i in range(m):
+            phi[i * d1 + i, 0] = 1 / np.sqrt(m)
+        u = np.kron(np.linalg.qr(gin(d0, d0))[0], np.linalg.qr(gin(d1, d1))[0])
+        phi = u @ phi
+        x = phi @ phi.conj().T + (0.02 + 0.2 * rng.random()) * np.eye(n)
     elif kind == "diagonal":
         # structured operators: iterates of the alternating search degenerate easily on these
         x = np.diag(rng.random(n) * (rng.random(n) < 0.8))
@@ -282,6 +294,9 @@ def make_subject(cs, res, tier, stream, like=None, prefer_k2=False, structured_k
     sub.exact = None
     if k >= min(dims):
         sub.exact = ("k_ge_min_dim", sub.opn)
+    elif meta["kind"] == "entangled_plus_identity":
+        c = float(np.real(np.trace(x)) - 1) / x.shape[0]
+        sub.exact_value = k / min(dims) + c  # reference for the witness search and the bracket
     elif sub.rank == 1:
         u, sv, vh = np.linalg.svd(x)
         sub.exact = ("rank_one", float(sv[0]) * sk_vec_norm(u[:, 0], k, dims) * sk_vec_norm(vh[0, :].conj(), k, dims))
@@ -323,6 +338,8 @@ def make_subject(cs, res, tier, stream, like=None, prefer_k2=False, structured_k
             sub.own_upper = None
         if sub.own_upper is not None:
             res.probe("own_upper_bound:" + sub.own_upper[0])
+    # an exactly known norm must lie inside the bracket
+    sub.known = getattr(sub, "exact_value", None)
     sub.outcomes = []
     return sub
 
@@ -335,7 +352,15 @@ def run(cs, tier, run_index):
     # sometimes a second operator of the same local dimensions and the same k lives in the same history
     # (whatever the routine keeps between calls under a key that ignores the operator meets another one)
     if cs.s("config").draw(3) == 2 or run_index % 8 == 7:
-        subs.append(make_subject(cs, res, tier, "operator:2", like=subs[0].meta))
+        like = dict(subs[0].meta)
+        if run_index % 8 == 7:
+            # the history that exposes state kept under a key that ignores the operator: first an operator whose call
+            # leaves through the `target` early exit, then one whose S(k) norm is a much smaller fraction of its norm
+            like["_want_low_ratio"] = True
+            if subs[0].meta["target"] is None and subs[0].meta["k"] < min(subs[0].meta["dims"]):
+                subs[0].meta["target"] = float(subs[0].wit * 0.985 - 1e-9)
+                subs[0].meta["target_mode"] = "just_below_attained"
+        subs.append(make_subject(cs, res, tier, "operator:2", like=like))
         if subs[0].meta["k"] >= 2 and subs[0].meta["k"] < min(subs[0].meta["dims"]):
             res.probe("two_operators_k_ge_2")
         res.probe("two_operators_same_shape")
@@ -345,7 +370,7 @@ def run(cs, tier, run_index):
     stage_ran = 0
     for i in range(n_states):
         sub = subs[rs.draw(len(subs))] if len(subs) > 1 else subs[0]
-        x, meta, opn = sub.x, dict(sub.meta, operator_index=subs.index(sub), operators=len(subs)), sub.opn
+        x, meta, opn = sub.x, dict({a: b for a, b in sub.meta.items() if not a.startswith("_")}, operator_index=subs.index(sub), operators=len(subs)), sub.opn
         k = sub.meta["k"]
         seed = rs.draw(1 << 32)
         np.random.seed(seed)
@@ -399,6 +424,11 @@ def run(cs, tier, run_index):
             res.violate("C14.sk.witness", witness=sub.wit, upper=up, lower=lo, op_norm=opn, rng_seed=seed, call_index=i, **meta)
         if lo > opn + slack:
             res.violate("C14.sk.order", why="lower bound above the operator norm", lower=lo, op_norm=opn, rng_seed=seed, call_index=i, **meta)
+        if sub.known is not None:
+            res.checks_sim += 1
+            res.probe("exactly_known_norm")
+            if lo > sub.known + slack or up < sub.known - slack:
+                res.violate("C14.sk.exact", regime="entangled_plus_identity", lower=lo, upper=up, reference=sub.known, rng_seed=seed, call_index=i, **meta)
         if sub.own_upper is not None:
             res.checks_sim += 1
             res.margin("lower_minus_own_upper:" + sub.own_upper[0], (lo - sub.own_upper[1]) / (slack + 1e-5 * max(opn, 1)))
